@@ -329,4 +329,208 @@ theorem inuse_ge {b0 : Nat → Bool} {sh : Shared} {ths : List PC} {evs : List E
   have h3 := hA.count
   omega
 
+/-! ### the machine -/
+
+/-- no thread-step of a calm machine returns the 'negative streams inuse' panic -/
+theorem tstep_no_negative {b0 : Nat → Bool} {sh : Shared} {ths : List PC} {evs : List Ev}
+    (hA : InvA b0 0 sh ths evs) (hB : InvB sh.words.length sh ths evs) (hC : InvC sh ths)
+    {t : Nat} {pc : PC} (ht : ths[t]? = some pc) : (tstep sh pc).2.2 ≠ some .crashNegative := by
+  rcases tstep_shape sh pc hA.npos (hA.locals t pc ht) with
+    ⟨_, _, _, _, _, h6⟩ | ⟨id, _, _, _, _, _, h7⟩ | ⟨id, _, _, _, h5⟩ | ⟨id, b, _, _, _, _, _, _, h9⟩ |
+    ⟨id, rfl, _, _, _, h6⟩
+  · exact h6
+  · rw [h7]; simp
+  · rw [h5]; simp
+  · rw [h9]; simp
+  · rw [h6]
+    have h1 := inuse_ge hA hB hC
+    have h2 : 0 < ths.countP isC11 := by
+      rw [List.countP_pos_iff]
+      exact ⟨_, List.mem_of_getElem? ht, rfl⟩
+    have h3 : ¬ (sh.inuse - 1 < 0) := by omega
+    simp [h3]
+
+structure InvN (n : Nat) (b0 : Nat → Bool) (s : State) (evs : List Ev) : Prop where
+  len : s.sh.words.length = n
+  a : InvA b0 0 s.sh s.threads evs
+  b : InvB n s.sh s.threads evs
+
+theorem nz_start (s : State) (t : Nat) (op : Op) (h : noClear0 s (.start t op) = true) : nz (startPC op) := by
+  cases op with
+  | get => trivial
+  | avail => trivial
+  | clear id => simpa [noClear0, startPC, nz] using h
+
+theorem quiet_start (op : Op) : quiet (startPC op) ∧ evOfPC (startPC op) = [] ∧ ∀ n, localA n (startPC op) := by
+  cases op <;> exact ⟨⟨rfl, rfl⟩, rfl, fun _ => trivial⟩
+
+/-- the step `idle → startPC op` (the call) keeps the three invariants -/
+theorem inv_call {n : Nat} {b0 : Nat → Bool} {s : State} {evs : List Ev} (hI : InvN n b0 s evs)
+    {t : Nat} (hidle : s.threads[t]? = some .idle) (op : Op) (hnz : nz (startPC op)) :
+    InvA b0 0 s.sh (s.threads.set t (startPC op)) evs ∧ InvB n s.sh (s.threads.set t (startPC op)) evs ∧
+    (InvC s.sh s.threads → InvC s.sh (s.threads.set t (startPC op))) := by
+  obtain ⟨hq, _, hl⟩ := quiet_start op
+  refine ⟨?_, ?_, ?_⟩
+  · have := invA_quiet hI.a hidle ⟨rfl, rfl⟩ s.sh (startPC op) rfl rfl hq (hl _)
+    simpa [evOfPC] using this
+  · exact invB_set hI.b hidle _ _ _ hI.b.reserved hnz hI.b.gotOk
+  · intro hC
+    refine invC_set hC hidle _ _ ?_
+    intro x hx
+    rw [(quiet_x hq x).1]
+    simpa [b2n, g7x] using hx
+
+theorem invN_step {n : Nat} {b0 : Nat → Bool} {s s' : State} {a : Action} {r : Option Ret} {evs : List Ev}
+    (hI : InvN n b0 s evs) (hok : noClear0 s a = true) (hs : step s a = some (s', r)) :
+    InvN n b0 s' (evOf s a ++ evs) := by
+  refine ⟨by rw [(step_length hs).1]; exact hI.len, invA_step hI.a hs, ?_⟩
+  have hlen := hI.len
+  cases a with
+  | start t op =>
+    simp only [step] at hs
+    split at hs
+    · rename_i hidle
+      simp only [Option.some.injEq] at hs
+      obtain ⟨h1, h2, _⟩ := inv_call hI hidle op (nz_start s t op hok)
+      have h3 := invB_tstep h1 (by rw [hlen]; exact h2) (t := t) (pc := startPC op) (by simp [get_set hidle])
+      rw [List.set_set, (quiet_start op).2.1, hlen] at h3
+      have e1 := congrArg Prod.fst hs
+      simp only at e1
+      rw [← e1]
+      simp only [evOf, List.nil_append] at h3 ⊢
+      exact h3
+    · cases hs
+  | step t =>
+    simp only [step] at hs
+    split at hs
+    · rename_i pc hpc
+      split at hs
+      · cases hs
+      · simp only [Option.some.injEq] at hs
+        have h3 := invB_tstep hI.a (by rw [hlen]; exact hI.b) hpc
+        rw [hlen] at h3
+        have e1 := congrArg Prod.fst hs
+        simp only at e1
+        rw [← e1]
+        simp only [evOf, hpc]
+        exact h3
+    · cases hs
+
+theorem invC_step {n : Nat} {b0 : Nat → Bool} {s s' : State} {a : Action} {r : Option Ret} {evs : List Ev}
+    (hI : InvN n b0 s evs) (hC : InvC s.sh s.threads) (hok : calm s a = true) (hs : step s a = some (s', r)) :
+    InvC s'.sh s'.threads ∧ r ≠ some .crashNegative := by
+  have hlen := hI.len
+  have hok1 : noClear0 s a = true := by
+    simp only [calm, Bool.and_eq_true] at hok; exact hok.1
+  have hok2 : rogueCAS s a = false := by
+    simp only [calm, Bool.and_eq_true, Bool.not_eq_true'] at hok; exact hok.2
+  cases a with
+  | start t op =>
+    simp only [step] at hs
+    split at hs
+    · rename_i hidle
+      simp only [Option.some.injEq] at hs
+      obtain ⟨h1, h2, h3⟩ := inv_call hI hidle op (nz_start s t op hok1)
+      have hget : (s.threads.set t (startPC op))[t]? = some (startPC op) := by simp [get_set hidle]
+      have h4 := invC_tstep h1 (h3 hC) hget (by
+        intro id b hpc _
+        cases op <;> simp [startPC] at hpc)
+      have h5 := tstep_no_negative h1 (by rw [hlen]; exact h2) (h3 hC) hget
+      rw [List.set_set] at h4
+      have e1 := congrArg Prod.fst hs
+      have e2 := congrArg Prod.snd hs
+      simp only at e1 e2
+      rw [← e1, ← e2]
+      exact ⟨h4, h5⟩
+    · cases hs
+  | step t =>
+    simp only [step] at hs
+    split at hs
+    · rename_i pc hpc
+      split at hs
+      · cases hs
+      · simp only [Option.some.injEq] at hs
+        have h4 := invC_tstep hI.a hC hpc (by
+          intro id b hpceq hb
+          subst hpceq
+          simp only [rogueCAS, hpc, hb, decide_true, Bool.true_and] at hok2
+          rw [List.countP_eq_zero]
+          intro pc' hpc'
+          have := (List.any_eq_false.mp hok2) pc' hpc'
+          simpa [g7x] using this)
+        have h5 := tstep_no_negative hI.a (by rw [hlen]; exact hI.b) hC hpc
+        have e1 := congrArg Prod.fst hs
+        have e2 := congrArg Prod.snd hs
+        simp only at e1 e2
+        rw [← e1, ← e2]
+        exact ⟨h4, h5⟩
+    · cases hs
+
+theorem invN_runAny {n : Nat} {b0 : Nat → Bool} (ok : State → Action → Bool)
+    (hok : ∀ s a, ok s a = true → noClear0 s a = true) (as : List Action) :
+    ∀ (s : State) (evs : List Ev) (s' : State) (evs' : List Ev), InvN n b0 s evs →
+      runAny ok s evs as = some (s', evs') → InvN n b0 s' evs' := by
+  induction as with
+  | nil =>
+    intro s evs s' evs' hI h
+    simp only [runAny, Option.some.injEq, Prod.mk.injEq] at h
+    obtain ⟨rfl, rfl⟩ := h
+    exact hI
+  | cons a as ih =>
+    intro s evs s' evs' hI h
+    simp only [runAny] at h
+    split at h
+    · rename_i hoka
+      split at h
+      · rename_i s1 r hs
+        exact ih s1 _ s' evs' (invN_step hI (hok s a hoka) hs) h
+      · cases h
+    · cases h
+
+theorem calm_noClear0 (s : State) (a : Action) (h : calm s a = true) : noClear0 s a = true := by
+  simp only [calm, Bool.and_eq_true] at h; exact h.1
+
+theorem invC_runAny {n : Nat} {b0 : Nat → Bool} (as : List Action) :
+    ∀ (s : State) (evs : List Ev) (s' : State) (evs' : List Ev), InvN n b0 s evs → InvC s.sh s.threads →
+      runAny calm s evs as = some (s', evs') → InvN n b0 s' evs' ∧ InvC s'.sh s'.threads := by
+  induction as with
+  | nil =>
+    intro s evs s' evs' hI hC h
+    simp only [runAny, Option.some.injEq, Prod.mk.injEq] at h
+    obtain ⟨rfl, rfl⟩ := h
+    exact ⟨hI, hC⟩
+  | cons a as ih =>
+    intro s evs s' evs' hI hC h
+    simp only [runAny] at h
+    split at h
+    · rename_i hoka
+      split at h
+      · rename_i s1 r hs
+        exact ih s1 _ s' evs' (invN_step hI (calm_noClear0 s a hoka) hs) (invC_step hI hC hoka hs).1 h
+      · cases h
+    · cases h
+
+/-- a fresh generator with `k` idle threads -/
+theorem invN_init (n k : Nat) (hn : 0 < n) :
+    InvN n (bitAt (init n).words) (initState n k) [] ∧ InvC (initState n k).sh (initState n k).threads := by
+  have hI := inv_init n k hn
+  have hidle : ∀ pc, pc ∈ (initState n k).threads → pc = .idle := by
+    intro pc hpc
+    simp only [initState, List.mem_replicate] at hpc
+    exact hpc.2
+  have hA := invA_start (initState n k) hI.npos hidle
+  have hc := hI.count
+  have h0 : (initState n k).sh.inuse = 0 := rfl
+  have hc0 : (initState n k).sh.inuse -
+      ((countBelow (bitAt (initState n k).sh.words) (64 * (initState n k).sh.words.length) : Nat) - 1) = (0 : Int) := by
+    have h1 : (initState n k).threads.countP isOwner = 0 := countP_idle (f := isOwner) rfl hidle
+    have h2 : (initState n k).held.length = 0 := rfl
+    rw [hc, h0, h1, h2]
+    simp
+  rw [hc0] at hA
+  refine ⟨⟨by simp [initState, length_init], hA, hI.reserved, ?_, by simp⟩, ⟨fun x => ?_⟩⟩
+  · intro t pc ht
+    rw [hidle pc (List.mem_of_getElem? ht)]; trivial
+  · rw [countP_idle (f := g7x x) (by simp [g7x]) hidle]; exact Nat.zero_le _
+
 end C08
